@@ -150,6 +150,8 @@ def gen_labels(rng, tier, nmax=None):
     span = rng.choice([60, 300, 1000])
     ps = pick_positions(rng, n, span)
     ws = pick_widths(rng, n)
+    if rng.random() < 0.06:  # a few labels of width 0 (markers without extent: they occupy an empty interval)
+        ws = [0 if rng.random() < 0.3 else w for w in ws]
     if rng.random() < 0.3:  # labels that share a position share a width (C06 interchangeability)
         seen = {}
         ws = [seen.setdefault(p, w) for p, w in zip(ps, ws)]
